@@ -90,7 +90,7 @@ def _one(data, src, col, as_str=False, parser=None, prev=None):
         except UnicodeDecodeError:
             as_str = False
     o = impl.parse_outcome(arg, parser=parser)
-    nt = o.verdict is not True or src in ("bytes", "mutant", "collision", "badcomment")
+    nt = o.verdict is not True or src in ("bytes", "mutant", "collision", "badcomment", "retext")
     sample = None
     if nt and col.evals % 1499 == 0:
         sample = {"input": data, "src": src, "verdict": o.verdict, "exc": o.exc, "steps": o.steps}
@@ -171,6 +171,47 @@ def badcomment_worker(arg):
             if data.draw(st.booleans()):
                 text += data.draw(st.sampled_from(BAD_COMMENTS)).rstrip(b"\n")
             _one(text, "badcomment", col)
+
+    body()
+    return col
+
+
+FMT_TEXTS = [b"%", b"%s", b"100%", b"%d", b"%(a)s", b"%%", b"{}", b"{0}", b"{x}", b"%r", b"{0!r}", b"%c", b"${x}", b"%5", b"%(", b"\\\\%s",
+             b"%s%s%s", b"{", b"}", b"{{", b"%n", b"\xe2\x82\xac%"]
+
+
+def retext_worker(arg):
+    """Scripts (valid and mutated) whose string contents look like format directives:
+    any of them may become the offending token quoted in an error message."""
+    sd, n, depth = arg
+    col = core.Collector()
+
+    @pspace.hyp_settings(n)
+    @hseed(sd)
+    @given(st.data())
+    def body(data):
+        toks = data.draw(S.valid_script(maxdepth=depth, maxcmds=3))
+        variants = [toks]
+        for _ in range(4):
+            k, mt = data.draw(S.mutate(toks))
+            if k != "noop":
+                variants.append(mt)
+        for tk in variants:
+            new = []
+            changed = False
+            for t in tk:
+                if t.startswith(b'"') and data.draw(st.integers(0, 2)) > 0:
+                    t = b'"' + data.draw(st.sampled_from(FMT_TEXTS)) + b'"'
+                    changed = True
+                elif t.startswith(b"text:") and data.draw(st.booleans()):
+                    t = b"text:\n" + data.draw(st.sampled_from(FMT_TEXTS)) + b"\n.\n"
+                    changed = True
+                new.append(t)
+            if not changed:
+                # a surplus string is the simplest offending token
+                new.insert(data.draw(st.integers(0, len(new))), b'"' + data.draw(st.sampled_from(FMT_TEXTS)) + b'"')
+            text = data.draw(S.layout(new))
+            _one(text, "retext", col, as_str=data.draw(st.booleans()))
 
     body()
     return col
@@ -514,6 +555,8 @@ def extra_worker(arg):
         return cpu_scaling_worker(payload)
     if kind == "badcomment":
         return badcomment_worker(payload)
+    if kind == "retext":
+        return retext_worker(payload)
     if kind == "atheris":
         return atheris_campaign(*payload)
     raise core.HarnessError(kind)
@@ -663,6 +706,7 @@ def main(tier, seed, t0):
     extra = [("bytes", (seed * 1000 + 100 + k, nbytes, 3 if quick else 5)) for k in range(16)]
     extra.append(("collision", None))
     extra += [("badcomment", (seed * 1000 + 300 + k, 150 if quick else 3000, 3)) for k in range(4)]
+    extra += [("retext", (seed * 1000 + 350 + k, 150 if quick else 3000, 3)) for k in range(4)]
     extra += [("file", (seed * 1000 + 200 + k, 60 if quick else 600)) for k in range(2)]
     n0 = 400 if quick else 3000
     extra += [("scaling", (name, n0)) for name in sorted(FAMILIES)]
@@ -671,7 +715,7 @@ def main(tier, seed, t0):
     extra += [("atheris", (seed, runs, True)), ("atheris", (seed, runs, False))]
     col.merge(core.run_shards(extra_worker, extra, on_killed=on_killed))
     need = ["src:blind", "src:guided", "src:gen", "src:mutant", "src:bytes", "src:collision", "src:parse_file",
-            "src:scaling", "src:cpu-scaling", "src:badcomment", "input:str", "verdict:False", "verdict:True", "parser:reused"]
+            "src:scaling", "src:cpu-scaling", "src:badcomment", "src:retext", "input:str", "verdict:False", "verdict:True", "parser:reused"]
     missing = [c for c in need if not col.classes.get(c)]
     if missing:
         raise core.HarnessError("generator classes empty: %s" % missing)
